@@ -7,6 +7,7 @@ usage: python -m bounded.keydigest <mode> <first shape> <last shape> [--detail <
 import hashlib
 import itertools
 import json
+import os
 import sys
 
 from . import shapes as S
@@ -24,6 +25,13 @@ def groups(mode, lo, hi, detail=None):
     _, I, _ = K._mods()
     cfgs = K.configs(include_builtin_hash=False)
     kms = [K.make_keymap(c) for c in cfgs]
+    if os.environ.get('KV_SESSION_VARIANT', '0') == '1':
+        # sessions differ in their history: this one has seen a key build fail (an argument no serializer can encode)
+        for km in kms:
+            try:
+                km((i for i in range(3)), lock=__import__('threading').Lock())
+            except Exception:
+                pass
     shapes = S.shapes(npos, nkwo)
     out = {}
     for idx in range(lo, min(hi, len(shapes))):
